@@ -655,6 +655,11 @@ func mergeArgumentDefinitions(prevArg *ast.ArgumentDefinition, newArg *ast.Argum
 		}
 	}
 
+	// make sure that the 2 directive lists are the same
+	if err := mergeDirectiveListsEqual(prevArg.Directives, newArg.Directives); err != nil {
+		return nil, err
+	}
+
 	return &result, nil
 }
 
